@@ -230,7 +230,7 @@ func class(msg string) string {
 
 func run(c *hx.Ctx) error {
 	res := c.Res
-	res.Rule = "build inputs: byte-level and token-level mutants (lexh.Mutate: delimiter/keyword/tag fragments, token delete/duplicate/swap/replace, byte flips, truncations, splices, line-ending swaps, context wraps) of the template and program corpus of /repo and of multi-file template trees (extends/import/render), in all six formats; a case is non-trivial when the build returns a *BuildError (the oracle then checks path, offsets, line and column); distinct by files. Newline stream (newlines.go): slot (the lexical state the hole is in: ~130 states of templates in all formats and of programs) x escape before the terminator (none, a lone backslash, and in string states every escape sequence) x terminator (LF, CR LF, CR; VT, FF, NEL, U+2028, U+2029 as decoys) x 1 or 2 repetitions x probe (undefined identifier, stray parenthesis, unknown escape, if without condition, none) x place (inside the state, after it, next line) x role (built file, rendered file); quick: the core sub-matrix plus one in twelve of the rest, thorough: all. Lexer inputs for the position correspondence and the token oracle: the same single-file mutants and every source of the newline stream."
+	res.Rule = "build inputs: byte-level and token-level mutants (lexh.Mutate: delimiter/keyword/tag fragments, token delete/duplicate/swap/replace, byte flips, truncations, splices, line-ending swaps, context wraps) of the template and program corpus of /repo and of multi-file template trees (extends/import/render), in all six formats; a case is non-trivial when the build returns a *BuildError (the oracle then checks path, offsets, line and column); distinct by files. Newline stream (newlines.go): slot (the lexical state the hole is in: ~130 states of templates in all formats and of programs) x escape before the terminator (none, a lone backslash, and in string states every escape sequence) x terminator (LF, CR LF, CR; VT, FF, NEL, U+2028, U+2029 as decoys) x 1 or 2 repetitions x probe (undefined identifier, stray parenthesis, unknown escape, if without condition, none) x place (inside the state, after it, next line) x role (built file, rendered file); quick: the core sub-matrix plus one in twelve of the rest, thorough: all. Forms stream (lexh.Forms, shared with C04): every statement and declaration form x modifiers x file roles (extending, extended, imported, rendered, macro bodies with a format, imported packages of a module); quick: one in two of the multi-file cases, one in six of the others. Class probes (classes.go): inputs drawn around the cause of each finding class, with the prediction whether the oracle fails (precision recorded as class-precision/<id>/…). Lexer inputs for the position correspondence and the token oracle: the same single-file mutants and every source of the newline stream."
 	corpus := lexh.LoadCorpus(c.N(4000, 40000), c.N(4000, 40000))
 	if len(corpus.Templates) < 50 {
 		return fmt.Errorf("corpus too small (%d templates): is VERIF_REPO right?", len(corpus.Templates))
